@@ -81,7 +81,7 @@ CLAIMED["C09"] = dict(
     note=COMMON_NOTE + PART)
 CLAIMED["C10"] = dict(
     text="Proof (Lean 4): exactly-once (C10_exactly_once), back-pressure without loss (C10_backpressure), FIFO (C10_fifo), no deadlock with a strictly decreasing measure and complete final states (C10_no_deadlock, _total), cancellation before/after enqueue does not disturb the proc log or other clients (C10_cancel_noninterference); RESP connection: for every chunking the bytes written are the replies to the frames of the whole stream, in order, up to QUIT/error/overflow (C10_resp_one_reply_per_command, C10_resp_prefix). "
-         "Tie: scheduler-driven traces with capacity down to 1 and cancellation at every poll boundary validated by the Lean LTS; real TCP connections fed pipelines under several chunkings compared with the connection model byte for byte." + PART,
+         "Tie: scheduler-driven traces with capacity down to 1 and cancellation at every poll boundary validated by the Lean LTS; real TCP connections fed pipelines under several chunkings compared with the connection model byte for byte; slow readers, exact-size bursts, one connection reused for hundreds of commands with error replies in between and pipelines of up to 4000 commands checked by position against the real server." + PART,
     design="§5 C10", technique="Lean 4 LTS invariants + termination measure; connection-loop induction over chunkings; trace validation and socket-level differential runs",
     note=COMMON_NOTE + PART)
 CLAIMED["C11"] = dict(
